@@ -3,7 +3,6 @@ package clientx
 
 import (
 	"context"
-	"fmt"
 	"net"
 	"runtime"
 	"time"
@@ -33,13 +32,12 @@ func FramingOf(k int) specref.Framing {
 	return specref.RTU
 }
 
-// Options for one call.
+// Options for a session.
 type Options struct {
 	ReadTimeout time.Duration
 	Hooks       modbus.ClientHooks
 	Flusher     bool
 	Clock       *xport.Clock
-	NilRequest  bool
 }
 
 // Outcome of one call.
@@ -48,21 +46,27 @@ type Outcome struct {
 	Err     error
 	Panic   string
 	Conn    *xport.Conn
+	Events  []xport.Event
 	Hung    bool
 	Stacks  string
 	Elapsed time.Duration
 }
 
-// Run performs one Do call against a fresh client and scripted transport.
-func Run(kind int, req packet.Request, s xport.Script, o Options) Outcome {
-	conn := xport.NewConn(s, o.Clock)
-	ctx, cancel := context.WithCancel(context.Background())
-	defer cancel()
-	conn.Cancel = cancel
+// Session is one client instance on one scripted transport; several calls can be made on it.
+type Session struct {
+	Kind int
+	Conn *xport.Conn
+	rt   time.Duration
+	do   func(ctx context.Context, req packet.Request) (packet.Response, error)
+}
+
+// NewSession creates the client (connected, for the network kinds).
+func NewSession(kind int, o Options) *Session {
+	conn := xport.NewConn(xport.Script{Tail: "deadline"}, o.Clock)
 	if o.ReadTimeout == 0 {
 		o.ReadTimeout = 2 * time.Second
 	}
-	var do func() (packet.Response, error)
+	s := &Session{Kind: kind, Conn: conn, rt: o.ReadTimeout}
 	switch kind {
 	case TCP, RTUNet:
 		cfg := modbus.ClientConfig{ReadTimeout: o.ReadTimeout, WriteTimeout: time.Second, Hooks: o.Hooks,
@@ -73,15 +77,8 @@ func Run(kind int, req packet.Request, s xport.Script, o Options) Outcome {
 		} else {
 			c = modbus.NewRTUClientWithConfig(cfg)
 		}
-		if err := c.Connect(ctx, "verif:1"); err != nil {
-			return Outcome{Err: fmt.Errorf("connect: %w", err), Conn: conn}
-		}
-		do = func() (packet.Response, error) {
-			if o.NilRequest {
-				return c.Do(ctx, nil)
-			}
-			return c.Do(ctx, req)
-		}
+		_ = c.Connect(context.Background(), "verif:1")
+		s.do = c.Do
 	case Serial:
 		opts := []modbus.SerialClientOptionFunc{modbus.WithSerialReadTimeout(o.ReadTimeout)}
 		if o.Hooks != nil {
@@ -93,34 +90,43 @@ func Run(kind int, req packet.Request, s xport.Script, o Options) Outcome {
 		} else {
 			c = modbus.NewSerialClient(xport.Port{C: conn}, opts...)
 		}
-		do = func() (packet.Response, error) {
-			if o.NilRequest {
-				return c.Do(ctx, nil)
-			}
-			return c.Do(ctx, req)
-		}
+		s.do = c.Do
 	}
-	out := Outcome{Conn: conn}
+	return s
+}
+
+// Do performs one call with the given script. A nil req is passed through as a nil request.
+func (s *Session) Do(req packet.Request, script xport.Script) Outcome {
+	ctx, cancel := context.WithCancel(context.Background())
+	defer cancel()
+	s.Conn.Rearm(script, cancel)
+	out := Outcome{Conn: s.Conn}
 	done := make(chan struct{})
 	start := time.Now()
 	go func() {
 		defer close(done)
-		if p, txt := mon.Catch(func() { out.Resp, out.Err = do() }); p {
+		if p, txt := mon.Catch(func() { out.Resp, out.Err = s.do(ctx, req) }); p {
 			out.Panic = txt
 		}
 	}()
 	select {
 	case <-done:
-	case <-time.After(o.ReadTimeout*20 + 20*time.Second):
+	case <-time.After(s.rt*20 + 20*time.Second):
 		// watchdog: not a verdict by itself; the caller decides with the transport log
 		buf := make([]byte, 1<<16)
 		n := runtime.Stack(buf, true)
 		select {
 		case <-done:
 		case <-time.After(40 * time.Second):
-			return Outcome{Conn: conn, Hung: true, Stacks: string(buf[:n])}
+			return Outcome{Conn: s.Conn, Events: s.Conn.Events(), Hung: true, Stacks: string(buf[:n])}
 		}
 	}
 	out.Elapsed = time.Since(start)
+	out.Events = s.Conn.Events()
 	return out
+}
+
+// Run performs one Do call against a fresh client and scripted transport.
+func Run(kind int, req packet.Request, s xport.Script, o Options) Outcome {
+	return NewSession(kind, o).Do(req, s)
 }
